@@ -14,6 +14,24 @@ pub mod sym {
     thread_local! {
         pub static INPUT: RefCell<(Vec<Vec<u8>>, usize)> = RefCell::new((Vec::new(), 0));
         pub static EXHAUSTED: RefCell<bool> = RefCell::new(false);
+        pub static RANDOM: RefCell<Option<u64>> = RefCell::new(None);
+    }
+    #[cfg(not(kani))]
+    pub fn set_random(seed: u64) {
+        RANDOM.with(|r| *r.borrow_mut() = Some(seed | 1));
+        INPUT.with(|i| *i.borrow_mut() = (Vec::new(), 0));
+    }
+    #[cfg(not(kani))]
+    fn rnd() -> u64 {
+        RANDOM.with(|r| {
+            let mut r = r.borrow_mut();
+            let mut x = r.unwrap();
+            x ^= x << 13;
+            x ^= x >> 7;
+            x ^= x << 17;
+            *r = Some(x);
+            x
+        })
     }
     #[cfg(not(kani))]
     pub fn set_input(v: Vec<Vec<u8>>) {
@@ -22,6 +40,25 @@ pub mod sym {
     }
     #[cfg(not(kani))]
     fn next(n: usize) -> Vec<u8> {
+        if RANDOM.with(|r| r.borrow().is_some()) {
+            // self-test mode: biased random bytes (boundary-heavy)
+            let mode = rnd() % 8;
+            let mut v = vec![0u8; n];
+            for b in v.iter_mut() {
+                *b = match mode {
+                    0 => 0,
+                    1 => 0xff,
+                    2 => (rnd() % 4) as u8,
+                    _ => rnd() as u8,
+                };
+            }
+            if n == 8 && mode == 3 {
+                // small usize / lengths
+                let k = rnd() % 80;
+                v = k.to_le_bytes().to_vec();
+            }
+            return v;
+        }
         INPUT.with(|i| {
             let mut i = i.borrow_mut();
             let k = i.1;
@@ -80,13 +117,15 @@ pub mod sym {
             std::panic::panic_any(super::AssumeFailed);
         }
     }
+    #[cfg(kani)]
     pub fn bytes<const N: usize>() -> [u8; N] {
+        kani::any()
+    }
+    #[cfg(not(kani))]
+    pub fn bytes<const N: usize>() -> [u8; N] {
+        let v = next(N);
         let mut b = [0u8; N];
-        let mut i = 0;
-        while i < N {
-            b[i] = u8();
-            i += 1;
-        }
+        b.copy_from_slice(&v);
         b
     }
 }
@@ -282,4 +321,277 @@ pub fn mul_tag(this: &mut U256, other: &U256, modulo: &U256, inv: u64) {
     t[0] ^= modulo[0];
     t[1] ^= inv;
     *this = U256::from(t);
+}
+
+// ---- constants of the two Montgomery fields, computed independently (Python big integers) from
+// q and r of the standard: R mod p, R^2 mod p, 10*R mod p, -p^-1 mod 2^64, p-1
+pub const Q_ONE: [u64; 4] = [0x1A9064D81CAEBA83, 0xDE0D6CB4E5851124, 0x29FC54B00A7138BA, 0x49BFFFFFFD5C590E];
+pub const Q_R2: [u64; 4] = [0x27DEA312B417E2D2, 0x88F8105FAE1A5D3F, 0xE479B522D6706E7B, 0x2EA795A656F62FBD];
+pub const Q_TEN: [u64; 4] = [0x73E583D1918E332A, 0x24BBF1E48D46EFF9, 0x4BCCA1A092311A38, 0x087FFFFFDB0CDEC6];
+pub const Q_INV: u64 = 0x892BC42C2F2EE42B;
+pub const R_ONE: [u64; 4] = [0x1A911E63296130DB, 0xB60D6CB4E7157411, 0x29FC54B00A7138BB, 0x49BFFFFFFD5C590E];
+pub const R_R2: [u64; 4] = [0x7598CD79CD750C35, 0xE4A08110BB6DAEAB, 0xBFEE4BAE7D78A1F9, 0x8894F5D163695D0E];
+pub const R_TEN: [u64; 4] = [0x73EFA96C4350ABFA, 0xF4BBF1E4A32C58EF, 0x4BCCA1A092311A43, 0x087FFFFFDB0CDEC6];
+pub const R_INV: u64 = 0x1D02662351974B53;
+pub const R_MINUS1: [u64; 4] = [0xE56EE19CD69ECF24, 0x49F2934B18EA8BEE, 0xD603AB4FF58EC744, 0xB640000002A3A6F1];
+
+/// big-endian value of up to 64 bytes, right aligned, as 8 little-endian limbs
+pub fn be_value8(buf: &[u8]) -> [u64; 8] {
+    let mut v = [0u64; 8];
+    let n = buf.len();
+    let mut i = 0;
+    while i < n && i < 64 {
+        v[i / 8] |= (buf[n - 1 - i] as u64) << (8 * (i % 8));
+        i += 1;
+    }
+    v
+}
+pub fn be_value4(buf: &[u8]) -> [u64; 4] {
+    let mut v = [0u64; 4];
+    let n = buf.len();
+    let mut i = 0;
+    while i < n && i < 32 {
+        v[i / 8] |= (buf[n - 1 - i] as u64) << (8 * (i % 8));
+        i += 1;
+    }
+    v
+}
+/// 32 big-endian bytes of 4 limbs
+pub fn be_bytes32(l: &[u64; 4]) -> [u8; 32] {
+    let mut o = [0u8; 32];
+    let mut i = 0;
+    while i < 32 {
+        o[31 - i] = (l[i / 8] >> (8 * (i % 8))) as u8;
+        i += 1;
+    }
+    o
+}
+/// a mod p for a 256-bit a (2p > 2^256: at most one subtraction)
+pub fn red1(a: &[u64; 4], p: &[u64; 4]) -> [u64; 4] {
+    if lt(a, p) {
+        *a
+    } else {
+        sub5(&[a[0], a[1], a[2], a[3], 0], p)
+    }
+}
+/// native-only: (big-endian integer of up to 64 bytes) mod p by Horner over bits with the reference adder
+#[cfg(not(kani))]
+pub fn ref_mod_be(buf: &[u8], p: &[u64; 4]) -> [u64; 4] {
+    let mut r = [0u64; 4];
+    for byte in buf {
+        for k in (0..8).rev() {
+            r = ref_add(&r, &r, p);
+            if (byte >> k) & 1 == 1 {
+                r = ref_add(&r, &[1, 0, 0, 0], p);
+            }
+        }
+    }
+    r
+}
+
+// ---- stub 3 (Kani only): the contract model of the Montgomery kernels used by byte-level harnesses.
+// encode (x * R^2) and decode (x * 1) are mutually inverse bijections of [0,p) fixing 0 (engine L:
+// L-enc, L-dec); encode of a 256-bit value first reduces it mod p; every other product is an
+// arbitrary canonical value that is zero exactly when a factor is zero (field, no zero divisors).
+// Calls are also logged so that harnesses can check the data flow into the kernels.
+#[cfg(kani)]
+pub mod ghost {
+    pub const CAP: usize = 6;
+    pub static mut N: usize = 0; // encode/decode table
+    pub static mut T_CAN: [[u64; 4]; CAP] = [[0; 4]; CAP]; // canonical value
+    pub static mut T_MONT: [[u64; 4]; CAP] = [[0; 4]; CAP]; // stored (Montgomery) value
+    pub static mut T_M0: [u64; CAP] = [0; CAP]; // low limb of the modulus (which field)
+    pub static mut MUL_CALLS: usize = 0;
+    pub static mut MUL_SELF: [[u64; 4]; CAP] = [[0; 4]; CAP];
+    pub static mut MUL_OTHER: [[u64; 4]; CAP] = [[0; 4]; CAP];
+    pub static mut MUL_OUT: [[u64; 4]; CAP] = [[0; 4]; CAP];
+    pub static mut DIV_CALLS: usize = 0;
+    pub static mut DIV_X: [u64; 8] = [0; 8];
+    pub static mut DIV_M: [u64; 4] = [0; 4];
+    pub static mut DIV_R: [u64; 4] = [0; 4];
+    pub static mut SQRT_NONE: bool = false;
+    pub static mut NEW_CALLS: usize = 0;
+    pub static mut NEW_ERR: bool = false;
+    pub static mut INVERT_CALLS: usize = 0;
+}
+#[cfg(kani)]
+pub fn mul_model(this: &mut U256, other: &U256, modulo: &U256, _inv: u64) {
+    use ghost::*;
+    let m = [modulo[0], modulo[1], modulo[2], modulo[3]];
+    let a = [this[0], this[1], this[2], this[3]];
+    let b = [other[0], other[1], other[2], other[3]];
+    let r2 = if m[0] == Q[0] { Q_R2 } else { R_R2 };
+    let out: [u64; 4];
+    unsafe {
+        if eq4(&b, &r2) {
+            let c = red1(&a, &m);
+            let mut found = CAP;
+            let mut j = 0;
+            while j < CAP {
+                if j < N && T_M0[j] == m[0] && eq4(&T_CAN[j], &c) && found == CAP {
+                    found = j;
+                }
+                j += 1;
+            }
+            if found < CAP {
+                out = T_MONT[found];
+            } else {
+                let o = havoc_below(&m);
+                kani::assume(is0(&o) == is0(&c));
+                let mut j = 0;
+                while j < CAP {
+                    if j < N && T_M0[j] == m[0] {
+                        kani::assume(!eq4(&T_MONT[j], &o));
+                    }
+                    j += 1;
+                }
+                if N < CAP {
+                    T_CAN[N] = c;
+                    T_MONT[N] = o;
+                    T_M0[N] = m[0];
+                    N += 1;
+                }
+                out = o;
+            }
+        } else if eq4(&b, &[1, 0, 0, 0]) && lt(&a, &m) {
+            let mut found = CAP;
+            let mut j = 0;
+            while j < CAP {
+                if j < N && T_M0[j] == m[0] && eq4(&T_MONT[j], &a) && found == CAP {
+                    found = j;
+                }
+                j += 1;
+            }
+            if found < CAP {
+                out = T_CAN[found];
+            } else {
+                let o = havoc_below(&m);
+                kani::assume(is0(&o) == is0(&a));
+                let mut j = 0;
+                while j < CAP {
+                    if j < N && T_M0[j] == m[0] {
+                        kani::assume(!eq4(&T_CAN[j], &o));
+                    }
+                    j += 1;
+                }
+                if N < CAP {
+                    T_CAN[N] = o;
+                    T_MONT[N] = a;
+                    T_M0[N] = m[0];
+                    N += 1;
+                }
+                out = o;
+            }
+        } else {
+            let o = havoc_below(&m);
+            if lt(&a, &m) && lt(&b, &m) {
+                kani::assume(is0(&o) == (is0(&a) || is0(&b)));
+            }
+            out = o;
+        }
+        if MUL_CALLS < CAP {
+            MUL_SELF[MUL_CALLS] = a;
+            MUL_OTHER[MUL_CALLS] = b;
+            MUL_OUT[MUL_CALLS] = out;
+        }
+        MUL_CALLS += 1;
+    }
+    *this = U256::from(out);
+}
+#[cfg(kani)]
+pub fn square_model(this: &mut U256, modulo: &U256, _inv: u64) {
+    let m = [modulo[0], modulo[1], modulo[2], modulo[3]];
+    let a = [this[0], this[1], this[2], this[3]];
+    let o = havoc_below(&m);
+    if lt(&a, &m) {
+        kani::assume(is0(&o) == is0(&a));
+    }
+    *this = U256::from(o);
+}
+#[cfg(kani)]
+pub fn divrem_model(x: &U512, modulo: &U256) -> (Option<U256>, U256) {
+    use ghost::*;
+    let m = [modulo[0], modulo[1], modulo[2], modulo[3]];
+    assert!(!is0(&m), "divrem by zero");
+    let r = havoc_below(&m);
+    unsafe {
+        DIV_CALLS += 1;
+        DIV_X = [x[0], x[1], x[2], x[3], x[4], x[5], x[6], x[7]];
+        DIV_M = m;
+        DIV_R = r;
+    }
+    let qq: [u64; 4] = [kani::any(), kani::any(), kani::any(), kani::any()];
+    (if kani::any() { Some(U256::from(qq)) } else { None }, U256::from(r))
+}
+#[cfg(kani)]
+pub fn invert_model(this: &mut U256, modulo: &U256, _r2: &U256) {
+    assert!(!this.is_zero(), "invert called on zero");
+    let m = [modulo[0], modulo[1], modulo[2], modulo[3]];
+    let o = havoc_below(&m);
+    kani::assume(!is0(&o));
+    unsafe {
+        ghost::INVERT_CALLS += 1;
+    }
+    *this = U256::from(o);
+}
+#[cfg(kani)]
+pub fn fq_sqrt_model(x: &RawFq) -> Option<RawFq> {
+    if kani::any() {
+        let o = havoc_below(&Q);
+        kani::assume(is0(&o) == is0(&fq_raw(x)));
+        Some(fq_from_raw(o))
+    } else {
+        kani::assume(!is0(&fq_raw(x)));
+        unsafe {
+            ghost::SQRT_NONE = true;
+        }
+        None
+    }
+}
+#[cfg(kani)]
+pub fn fq2_sqrt_model(x: &RawFq2) -> Option<RawFq2> {
+    if kani::any() {
+        let (a, b) = (havoc_below(&Q), havoc_below(&Q));
+        let (x0, x1) = fq2_parts(x);
+        kani::assume((is0(&a) && is0(&b)) == (is0(&fq_raw(&x0)) && is0(&fq_raw(&x1))));
+        Some(RawFq2::new(fq_from_raw(a), fq_from_raw(b)))
+    } else {
+        unsafe {
+            ghost::SQRT_NONE = true;
+        }
+        None
+    }
+}
+/// AffineG::new contract: Ok carrying exactly the given coordinates, or Err; never panics.
+/// (its own behaviour - curve equation, subgroup test - is decided by engine A). y = 0 is
+/// excluded on Ok: neither curve has a point of order two (both group orders are odd).
+#[cfg(kani)]
+pub fn affine_new_model<P: GroupParams>(x: P::Base, y: P::Base) -> Result<AffineG<P>, sm9_core::GroupError> {
+    unsafe {
+        ghost::NEW_CALLS += 1;
+    }
+    if kani::any() {
+        kani::assume(!y.is_zero());
+        match G::<P>::new(x, y, P::Base::one()).to_affine() {
+            Some(a) => Ok(a),
+            None => Err(sm9_core::GroupError::NotOnCurve),
+        }
+    } else {
+        unsafe {
+            ghost::NEW_ERR = true;
+        }
+        Err(sm9_core::GroupError::NotOnCurve)
+    }
+}
+
+/// layout-only model: decode (x * 1) is the identity on canonical values; used by harnesses that
+/// check pure byte placement (independent of which bijection decode is)
+#[cfg(kani)]
+pub fn mul_dec_id(this: &mut U256, other: &U256, modulo: &U256, _inv: u64) {
+    let m = [modulo[0], modulo[1], modulo[2], modulo[3]];
+    let a = [this[0], this[1], this[2], this[3]];
+    let b = [other[0], other[1], other[2], other[3]];
+    if !(eq4(&b, &[1, 0, 0, 0]) && lt(&a, &m)) {
+        *this = U256::from(havoc_below(&m));
+    }
 }
